@@ -12,7 +12,9 @@ first build and plan/source edits before the build that is interrupted) and sche
 * the uninterrupted reference build, with the committed-state invariants evaluated after every
   one of its transactions;
 * a crash after EVERY commit index of the reference (startup, dispatch, completion, cleanup
-  transactions alike) and before every action and the exit of every running step;
+  transactions alike) and before every action and the exit of every running step; one case in five
+  interrupts the rebuild phase of a WATCHING director instead (edits arrive as file events); one
+  kill point in seven kills the restart as well, after 1-14 of its commits, before the final restart;
 * the restart with `STEPUP_DEBUG=1` (`_check_consistency` raises), same invariants after every
   commit, plus: every step that was RUNNING at the kill and is SUCCEEDED in the end was executed
   again, and none of its outputs is BUILT at any commit before that execution completes;
@@ -22,6 +24,11 @@ first build and plan/source edits before the build that is interrupted) and sche
   products, dependency edges with their dynamic flag, need, env vars, resources, globs, file
   digests, step `out_digest`).  Compared separately (own signature): `inp_digest` lines, which
   notes/simdirector.md shows to depend on whether an input was UNCONFIRMED at completion.
+  A history whose uninterrupted result depends on the schedule (a C02 matter) is compared with the
+  set of uninterrupted outcomes of four schedules.  A restart during which the row of a step was
+  re-initialised under its job (F9) is reported once, as `running-step-row-reset`; what follows from
+  it is not reported separately.
+Steps are commands: explicit scripts that read exactly the declared inputs (`simcases.py`).
 """
 
 from __future__ import annotations
@@ -629,9 +636,9 @@ def _merge(ctx, task, res):
 async def search(ctx):
     import simpool
 
-    ncase = ctx.budget(14, 240)
+    ncase = ctx.budget(12, 240)
     specs = [make_spec(ctx.seed, i, ctx.tier) for i in range(ncase)]
-    soft = 55 if ctx.tier == "quick" else 900
+    soft = 45 if ctx.tier == "quick" else 900
     ran = 0
     for status, task, res in simpool.run("props.c05", "run_case", specs, deadline_s=soft + 120, soft_s=soft):
         if status == "ok":
